@@ -175,6 +175,7 @@ pub mod token {
 
     pub mod public_keys {
         use vstd::prelude::*;
+        use crate::verif_std::*;
         use crate::{crypto::PublicKey, error};
         //@extract biscuit-auth/src/token/public_keys.rs :: struct PublicKeys
         //@end
@@ -195,11 +196,18 @@ pub mod token {
             //@ ensures ok: r is Ok ==> crate::datalog::SymbolTable::seq_disjoint(old(self).keys@, other.keys@) && final(self).keys@ == old(self).keys@ + other.keys@
             //@end
             //@extract biscuit-auth/src/token/public_keys.rs :: impl PublicKeys :: fn insert
-            //@ external_body
+            //@ rewrites R10
+            //@ closure 0 returns bool
+            //@ closure 0 ensures c: verif_r == (*key == *k)
             //@ ensures set: final(self).keys@ == (if old(self).keys@.contains(*k) { old(self).keys@ } else { old(self).keys@.push(*k) })
+            //@ ensures index: (r as int) < final(self).keys@.len() && final(self).keys@[r as int] == *k
+            //@ ensures first: forall|i: int| 0 <= i < (r as int) ==> final(self).keys@[i] != *k
             //@end
             //@extract biscuit-auth/src/token/public_keys.rs :: impl PublicKeys :: fn insert_fallible
-            //@ external_body
+            //@ rewrites R10
+            //@ closure 0 returns bool
+            //@ closure 0 ensures c: verif_r == (*key == *k)
+            //@ ensures index: r is Ok ==> (r->Ok_0 as int) == old(self).keys@.len()
             //@ ensures ok: r is Ok ==> !old(self).keys@.contains(*k) && final(self).keys@ == old(self).keys@.push(*k)
             //@ ensures err: r is Err ==> old(self).keys@.contains(*k) && final(self).keys@ == old(self).keys@
             //@end
@@ -712,6 +720,8 @@ pub mod tspec {
         &&& forall|i: int| 0 <= i < c.blocks@.len() ==> #[trigger] ks[i + 1] == ext_key(c.blocks@[i])
     }
 }
+//@canary pk-insert-found-index :: token::public_keys::PublicKeys::insert :: Some(index) => index as u64, ==>> Some(index) => (index as u64) + 1,
+//@canary pk-insert-fallible-dup :: token::public_keys::PublicKeys::insert_fallible :: Some(_) => Err(error::Format::PublicKeyTableOverlap), ==>> Some(i) => Ok(i as u64),
 //@canary block-index-guard :: token::Biscuit::block :: if index > self.blocks.len() { ==>> if index > self.blocks.len() + 1 {
 //@canary unverified-block-index-guard :: token::unverified::UnverifiedBiscuit::block :: if index > self.blocks.len() { ==>> if index > self.blocks.len() + 1 {
 //@canary tp-unwrap :: token::unverified::UnverifiedBiscuit::append_third_party_with_keypair :: proto_block_to_token_block(&block, Some(external_key))?; ==>> proto_block_to_token_block(&block, Some(external_key)).unwrap();
